@@ -196,9 +196,11 @@ class IterEdit(Op):
         out = ['itr.open %s I0' % l]
         for _ in range(k + 1):
             out.append('itr.next I0')
-        if action == 'remove':
+        if action in ('remove', 'remove+update', 'remove+remove'):
             out.append('itr.remove I0')
-        elif action == 'update':
+            if action == 'remove+remove':
+                out.append('itr.remove I0')
+        if action in ('update', 'remove+update'):
             out.append('pkt.create P1 0')
             for n, v in upd:
                 out.append('pkt.set P1 %s %s' % (U(n), vlit(v)))
@@ -245,13 +247,18 @@ class IterEdit(Op):
                     break
         pos = 1 + k + 1
         newpackets = None
-        if action == 'remove':
+        if action in ('remove', 'remove+update', 'remove+remove'):
             a = ans[pos]
             if a.get('rc') != OK:
                 probs.append('%r: remove answered %r' % (self, a))
             else:
                 newpackets = [p for p in lp.packets if p is not target]
             pos += 1
+            if action != 'remove':
+                # after a removal the iterator has no current packet: a second remove / an update is a misuse and changes nothing
+                a = ans[-2]
+                if a.get('rc') != MISUSE:
+                    probs.append('%r: %s directly after remove answered %r (CIF_MISUSE expected)' % (self, action.split('+')[1], a))
         elif action == 'update':
             a = ans[pos + 1 + len(upd)]
             eff = {}
